@@ -4129,6 +4129,26 @@ fn show_invisible_op_char(ch: &str) -> &str {
 }
 
 
+#[cfg(mathcat_verif)]
+/// Verification hooks (compiled only with `--cfg mathcat_verif`): thin wrappers that expose internal functions unchanged.
+pub mod verif {
+	use super::*;
+
+	/// Runs `canonicalize_plane1` on `<mi mathvariant=variant>text</mi>` (no attribute when `variant` is None) and returns the new text.
+	pub fn plane1(text: &str, variant: Option<&str>) -> String {
+		let package = sxd_document::Package::new();
+		let doc = package.as_document();
+		let mi = create_mathml_element(&doc, "mi");
+		mi.set_text(text);
+		if let Some(variant) = variant {
+			mi.set_attribute_value("mathvariant", variant);
+		}
+		let context = CanonicalizeContext::new();
+		let result = context.canonicalize_plane1(mi);
+		return as_text(result).to_string();
+	}
+}
+
 #[cfg(test)]
 mod canonicalize_tests {
 	use crate::are_strs_canonically_equal_with_locale;
